@@ -450,13 +450,46 @@ class Engine(Executor):
         conds = [same_base] + [self._same_sv(x, y, s, node) for x, y in zip(appended, items)]
         return [(s, Z(V.VBool(z3.And(conds)), "bool"))]
 
+    def event_tags(self, s):
+        return {self.concrete_str(ev.items[0]) for ev in s.ghost.get("events", []) if isinstance(ev, PyTuple) and ev.items}
+
+    def leave_loop_events(self, s2, st):
+        """A path leaving a loop from inside an iteration (break / return): the calls made before the loop, then this
+        iteration's (those of earlier iterations are the loop's lost tags)."""
+        s2.ghost = dict(s2.ghost)
+        s2.ghost["events"] = list(st.ghost.get("events", [])) + list(s2.ghost.get("events", []))
+        if "gen_counts" in st.ghost:
+            s2.ghost["gen_counts"] = st.ghost["gen_counts"]
+        else:
+            s2.ghost.pop("gen_counts", None)
+
+    def tag_known(self, name, s, node, at=None):
+        """Calls tagged `name` made by a loop's earlier iterations are in no event list: their count is unknown after the
+        loop; an event listed after that loop (position `at`) is still known to be the last one."""
+        pos = s.ghost.get("lost_tags", {}).get(name)
+        if pos is not None and (at is None or at < pos):
+            raise Unsupported("calls tagged %r are made inside a loop: their history after the loop is not tracked" % name, node)
+
     def bi_call_event(self, args, kwargs, s, node):
         """call_event(name): the arguments recorded by the last contracted call whose event is tagged `name`."""
         name = self.concrete_str(args[0])
-        for ev in reversed(s.ghost.get("events", [])):
+        evs = s.ghost.get("events", [])
+        pos = s.ghost.get("lost_tags", {}).get(name, 0)
+        # (calls a loop's earlier iterations made are in no list: only what is listed after that loop can be the last call;
+        # otherwise the answer is a tuple whose fields are unknown values)
+        for i in range(len(evs) - 1, pos - 1, -1):
+            ev = evs[i]
             if isinstance(ev, PyTuple) and ev.items and self.concrete_str(ev.items[0]) == name:
                 return [(s, ev)]
         return [(s, PyTuple([Z(V.mk(name), "str")]))]
+
+    def bi_called_after_loops(self, args, kwargs, s, node):
+        """called_after_loops(name): how many calls tagged `name` were made after the last loop that makes such calls
+        (all of them when no loop does)."""
+        name = self.concrete_str(args[0])
+        pos = s.ghost.get("lost_tags", {}).get(name, 0)
+        n = sum(1 for ev in s.ghost.get("events", [])[pos:] if isinstance(ev, PyTuple) and ev.items and self.concrete_str(ev.items[0]) == name)
+        return [(s, Z(V.mk(n), "int"))]
 
     def bi_looped(self, args, kwargs, s, node):
         """looped(key): this path ran through the loop `key`, which its contract declares the only yielder."""
@@ -464,6 +497,7 @@ class Engine(Executor):
 
     def bi_called(self, args, kwargs, s, node):
         name = self.concrete_str(args[0])
+        self.tag_known(name, s, node)
         n = sum(1 for ev in s.ghost.get("events", []) if isinstance(ev, PyTuple) and ev.items and self.concrete_str(ev.items[0]) == name)
         return [(s, Z(V.mk(n), "int"))]
 
@@ -471,6 +505,7 @@ class Engine(Executor):
         """yield_count(tag): how many values the (single) generator call recorded under that event tag yielded to the
         loop that consumed it to the end (known after that loop's normal exit)."""
         name = self.concrete_str(args[0])
+        self.tag_known(name, s, node)
         evs = s.ghost.get("events", [])
         idx = [i for i, ev in enumerate(evs) if isinstance(ev, PyTuple) and ev.items and self.concrete_str(ev.items[0]) == name]
         counts = s.ghost.get("gen_counts", {})
@@ -1144,7 +1179,7 @@ class Engine(Executor):
                 continue          # a clause over the whole sequence of yields: the consuming loop sees one abstract element at a time
             if used & callee_locals:
                 continue          # a clause about the callee's own locals at its return point: checked against its body, no fact for callers
-            if used & {"events", "called", "call_event", "yield_count"}:
+            if used & {"events", "called", "called_after_loops", "call_event", "yield_count"}:
                 continue          # a clause about the callee's own trace of contracted calls: the caller's trace is another one
             nxt = []
             for st in states:
@@ -1279,6 +1314,8 @@ class Engine(Executor):
             for inv in invs:
                 states = [s2 for b0 in states for (s2, b) in self.eval_clause(inv, b0, b0.env, stmt) if not s2.assume(b)]
             iter_results = []
+            loop_tags = set()
+            n_ev0 = len(st.ghost.get("events", []))
             for b0 in states:
                 for (s1, c) in self.ev(stmt.test, b0):
                     if is_exc(c):
@@ -1291,6 +1328,8 @@ class Engine(Executor):
                     for (s2, oc) in self.exec_block(stmt.body, t):
                         if s2.heap_sig() != sig0:
                             heap_written = True
+                        loop_tags |= {self.concrete_str(ev.items[0]) for ev in s2.ghost.get("events", [])[n_ev0:]
+                                      if isinstance(ev, PyTuple) and ev.items} | set(s2.ghost.get("lost_tags", ()))
                         if oc is None or oc[0] == "continue":
                             for (n, mk) in cands:
                                 v = s2.env.get(n)
@@ -1312,6 +1351,14 @@ class Engine(Executor):
             results.extend(iter_results)
             break
         fin = st.fork()
+        # calls recorded by EARLIER iterations are not in any state's event list: what called()/call_event() would say
+        # about those tags after the loop is unknown (asking makes the function undecided, never a wrong count)
+        for (r_s, _oc) in results + [(fin, None)]:
+            r_s.ghost = dict(r_s.ghost)
+            lt = dict(st.ghost.get("lost_tags", {}))
+            for t_ in loop_tags:
+                lt[t_] = len(st.ghost.get("events", []))       # (what this state lists from that position on is later)
+            r_s.ghost["lost_tags"] = lt
         if havoc_heap:
             fin.heap_havoc(tag + "x")
         for (n, mk) in self.havoc(fin, names, attrs, tag + "x"):
@@ -1627,7 +1674,9 @@ class Engine(Executor):
             body.flags = dict(body.flags)
             body.flags["loop_stack"] = tuple(body.flags.get("loop_stack", ())) + (tag,)       # the loops this body is nested in
             body.ghost = dict(body.ghost)
-            body.ghost["events"] = []
+            body.ghost["events"] = []              # inside the body `events` / called() speak of this iteration only
+            body.ghost["lost_tags"] = {}
+            loop_tags = set()
             for (n, mk) in cands:
                 body.assume(mk(body.env[n].t))
             # entry check of the candidates (drop on failure: annotations are hints, not facts)
@@ -1671,6 +1720,7 @@ class Engine(Executor):
                         ends_iteration = oc is None or oc[0] == "continue"
                         if s2.heap_sig() != sig0:
                             heap_written = True
+                        loop_tags |= self.event_tags(s2) | set(s2.ghost.get("lost_tags", ()))
                         if ends_iteration or oc[0] in ("break", "return"):
                             # per-iteration post-conditions over what this iteration yielded / which calls it made
                             if body_ens:
@@ -1706,11 +1756,12 @@ class Engine(Executor):
                                 for (s3, b) in self.eval_clause(inv, s2.fork(), with_iters(s2.env, k + 1), stmt):
                                     self.prove(s3, b, "K4", stmt, "invariant preserved by the loop body: %s" % inv, clause="step:" + inv)
                         elif oc[0] == "break":
-                            s2.ghost = dict(st.ghost)
+                            self.leave_loop_events(s2, st)
                             if sole:
                                 s2.out = [("havoc", tag)]       # this iteration's yields were judged by the clauses above
                             results.append((s2, None))
                         else:
+                            self.leave_loop_events(s2, st)
                             if sole and oc[0] == "return":
                                 s2.out = [("havoc", tag)]
                             results.append((s2, oc))
@@ -1735,6 +1786,14 @@ class Engine(Executor):
             # a variable first bound inside the loop is read afterwards: the loop must run at least once
             self.prove(st, count > 0, "K1", stmt, "loop runs at least once (%s is first bound inside it and read later)" % ", ".join(need_nonempty), clause="UnboundLocalError")
         fin = st.fork()
+        # calls recorded by EARLIER iterations are not in any state's event list: what called()/call_event() would say
+        # about those tags after the loop is unknown (asking makes the function undecided, never a wrong count)
+        for (r_s, _oc) in results + [(fin, None)]:
+            r_s.ghost = dict(r_s.ghost)
+            lt = dict(st.ghost.get("lost_tags", {}))
+            for t_ in loop_tags:
+                lt[t_] = len(st.ghost.get("events", []))       # (what this state lists from that position on is later)
+            r_s.ghost["lost_tags"] = lt
         if havoc_heap:
             fin.heap_havoc(tag + "x")
         fin_cands = self.havoc(fin, names, body_attrs, tag + "x")
@@ -2008,7 +2067,9 @@ class Engine(Executor):
             if key not in self.loops_seen:
                 self.unsupported.append((fi.qualname, 0, "cannot attach loop contract %r (header not found)" % key))
         if n_ret == 0 and not any(oc is not None and oc[0] == "raise" for (_s, oc) in finals):
-            vac.status = "vacuous"
+            # no exit reached: a contract error (vacuous) unless paths were given up on constructs outside the
+            # subset -- then nothing is known about the exits, which is "undecided", not a checker fault
+            vac.status = "undecided" if (self.unsupported and vac.status != "vacuous") else "vacuous"
         return {
             "function": fi.qualname, "contract": c.name, "props": c.props,
             "file": fi.file, "line": fi.node.lineno,
